@@ -1,17 +1,23 @@
 (** C01 — a command line is accepted iff it is a sentence of the spec's language.
-    PARTIAL. Proved for every graph, command line and environment: (soundness of the search) whatever
-    State.apply accepts is an accepting run of the compiled automaton ([Acc]: at each state a leading
-    "--" is dropped once, a transition is taken when its matcher succeeds on what is left, the run
-    ends in a terminal state with nothing left), the search always ends (C03), and (backtracking
-    completeness) it finds an accepting run whenever one exists: accepted iff the automaton has an
-    accepting run; and Prepare keeps exactly the accepting runs of the Thompson automaton. NOT yet proved:
-    that the automaton built by the Thompson construction has exactly the runs of the regular
-    expression (first half of T1), and that matcher-level runs coincide with the sentences of the
-    reference semantics of RefSem.v (T4). These are covered on every run by the check: the
-    automaton of every generated spec is compared with the implementation's, and the implementation's
-    verdict is compared with the reference semantics ([RefSem.r_match], an independent backtracking
-    matcher over symbol sequences) on every claimed case. *)
-From MowCli Require Import Base Parser Nfa Matchers Apply Values Flow Cmd RefSem ApplyProofs TermProofs NfaProofs CompleteProofs PrepareProofs.
+    PARTIAL, with one step missing. Proved, for every spec that compiles, every declaration list,
+    command line and environment ([C01_structural]): the compiled command accepts a command line iff
+    the spec's syntax tree, read as a regular expression over matcher steps ([Accepts]: juxtaposition
+    is composition, | is union, [ ] is optional, ... is one-or-more; a leaf is one call of the leaf's
+    matcher on what is left, after the one-time drop of a leading "--"), has a reading that consumes
+    the whole line, and the bindings it records are those of such a reading. The chain is
+      parser output has no empty group ([parser_ne])
+      -> the Thompson construction has exactly the runs of the expression ([C01_thompson_correct])
+      -> Prepare (shortcut elimination with the D2 repair, then the sort) keeps them ([C01_prepare_preserves_runs])
+      -> the visited-set depth-first search is sound, terminates and is complete
+         ([C01_accepts_only_accepting_runs], [C01_search_decides], [C01_search_complete]).
+    NOT proved (T4): that reading the leaves as matcher calls coincides with the token-level
+    sentences of the reference semantics of RefSem.v (where an option matcher may be satisfied by
+    occurrences anywhere before "--", and the option group is greedy: K2). That step is covered on
+    every run by the check: the implementation's verdict is compared with [RefSem.r_match], an
+    independent backtracking matcher over symbol sequences, on every claimed case, and the
+    automaton of every generated spec is compared state by state with the implementation's. *)
+From MowCli Require Import Base Parser Nfa Matchers Apply Values Flow Cmd RefSem ApplyProofs TermProofs NfaProofs CompleteProofs PrepareProofs ThompsonProofs StructProofs.
+From MowCli Require Import Lexer.
 
 Theorem C01_accepts_only_accepting_runs :
   forall D g start args bs,
@@ -57,6 +63,39 @@ Theorem C01_prepare_preserves_runs :
     forall s args ro bs, Acc D g s args ro bs <-> Acc D g' s args ro bs.
 Proof. exact prepare_same_runs. Qed.
 
+(** the Thompson-style construction of parser.go: for every syntax tree without an empty group (which
+    is what the parser produces, [parser_ne]), the automaton it builds accepts from its start state
+    exactly the configurations the expression accepts, with the same bindings *)
+Theorem C01_thompson_correct :
+  forall D nopts e, ne_seq e = true ->
+    forall (c : cfg) bs,
+      Acc D (snd (thompson nopts e)) (fst (thompson nopts e)) (fst c) (snd c) bs <-> Accepts D nopts e c bs.
+Proof. exact thompson_correct. Qed.
+
+(** the structural statement: lexer, parser, Thompson construction, Prepare and the search, end to end *)
+Theorem C01_structural :
+  forall opts args spec i toks e,
+    compile opts args spec = IOk i ->
+    tokenize spec = LexOk toks ->
+    parse_tokens (lookup_name opts) (lookup_name args) (length spec) toks = ParseOk e ->
+    forall argv,
+      (exists bs, fsm_apply (optinfo_of opts) (i_graph i) (i_start i) argv = AOk bs) <->
+      (exists bs, Accepts (optinfo_of opts) (length opts) e (argv, false) bs).
+Proof. exact compile_accepts_iff_language. Qed.
+
+Theorem C01_structural_bindings :
+  forall opts args spec i toks e,
+    compile opts args spec = IOk i ->
+    tokenize spec = LexOk toks ->
+    parse_tokens (lookup_name opts) (lookup_name args) (length spec) toks = ParseOk e ->
+    forall argv bs,
+      fsm_apply (optinfo_of opts) (i_graph i) (i_start i) argv = AOk bs ->
+      Accepts (optinfo_of opts) (length opts) e (argv, false) bs.
+Proof. exact compile_bindings_from_language. Qed.
+
+Print Assumptions C01_thompson_correct.
+Print Assumptions C01_structural.
+Print Assumptions C01_structural_bindings.
 Print Assumptions C01_accepts_only_accepting_runs.
 Print Assumptions C01_prepare_preserves_runs.
 Print Assumptions C01_search_complete.
@@ -92,4 +131,21 @@ Example C01_greedy_refuted :
   (r_match D Ideal 2 ast [lit "-a"; lit "-a"] None, r_match D (Greedy false) 2 ast [lit "-a"; lit "-a"] None,
    accepts (lit "-ab -a") [lit "-a"; lit "-a"])
   = (Yes, No, false).
+Proof. vm_compute. reflexivity. Qed.
+
+(** the premises of [C01_structural] are met by ordinary specs: this one compiles, lexes and parses *)
+Example C01_structural_nonvacuous :
+  match declare (fun _ => None) (fun _ => []) ex_decls [] [] with
+  | inl (opts, args) =>
+      let spec := lit "[-a | -b] SRC... DST" in
+      match compile opts args spec, tokenize spec with
+      | IOk _, LexOk toks =>
+          match parse_tokens (lookup_name opts) (lookup_name args) (length spec) toks with
+          | ParseOk e => ne_seq e
+          | _ => false
+          end
+      | _, _ => false
+      end
+  | inr _ => false
+  end = true.
 Proof. vm_compute. reflexivity. Qed.
